@@ -133,3 +133,33 @@ macro_rules! c12_hunk_replace {
 // (does not finish: out of memory / > 400 s even on concrete text) c12_hunk_replace!(c12_hunk_lf_trailing, "a\nb\n", b"\n", true);
 // (does not finish: out of memory / > 400 s even on concrete text) c12_hunk_replace!(c12_hunk_lf_notrailing, "a\nb", b"\n", false);
 // (does not finish: out of memory / > 400 s even on concrete text) c12_hunk_replace!(c12_hunk_crlf_trailing, "a\r\nb\r\n", b"\r\n", true);
+
+// C12: "text updates preserve the file's line-ending style and trailing newline" -- the line split/join pair is the
+// identity on every LF text, and on every CRLF text whose every line break is CRLF. Text = 3 symbolic bytes over
+// {a, \n} (LF shape) resp. 4 bytes over {a, \r\n pairs} (CRLF shape).
+#[kani::proof]
+#[kani::unwind(8)]
+// NOT REGISTERED: out of memory (62 GB) after 7 min -- str::contains / split / join over 3 symbolic bytes.
+fn zz_c12_lines_roundtrip_lf3() {
+    let b: [u8; 3] = kani::any();
+    let mut i = 0;
+    while i < 3 {
+        kani::assume(b[i] == b'a' || b[i] == b'\n');
+        i += 1;
+    }
+    let text = unsafe { core::str::from_utf8_unchecked(&b) };
+    let eol = detect_line_ending(text);
+    assert!(eol.len() == 1, "LF text detected as CRLF");
+    let (lines, trailing) = split_lines(text);
+    let out = join_lines(&lines, trailing, eol);
+    let ob = out.as_bytes();
+    // a text consisting only of line breaks after an empty first line is the one documented exception: no lines => ""
+    if !lines.is_empty() {
+        assert!(ob.len() == 3, "split/join changed the length of an LF text");
+        assert!(ob[0] == b[0] && ob[1] == b[1] && ob[2] == b[2], "split/join is not the identity on an LF text");
+    }
+    kani::cover!(trailing && !lines.is_empty(), "text with a trailing newline");
+    kani::cover!(!trailing, "text without a trailing newline");
+    core::mem::forget(lines);
+    core::mem::forget(out);
+}
